@@ -331,7 +331,9 @@ impl Out<'_> {
       for m in &imp.imported_members {
         self.id(1, m, false);
       }
-      self.node(1, "modpath", &imp.imported_module_loc);
+      // name-like multi-token node: must spell the dotted module path
+      let dotted = imp.imported_module.pretty_print(self.heap);
+      self.items.push(format!("1:modpath:{}:{}", span(&imp.imported_module_loc), hex(dotted.as_bytes())));
     }
     for t in &module.toplevels {
       self.node(0, "toplevel", &t.loc());
@@ -577,6 +579,18 @@ impl Svc {
       ));
     }
     items.extend(diag_items);
+    // "cannot resolve module" is reported for the whole import: its range must be one of the import ranges
+    {
+      let mut h3 = Heap::new();
+      let mut es3 = ErrorSet::new();
+      let parsed = samlang_parser::parse_source_module_from_text(text, m, &mut h3, &mut es3);
+      let imps: Vec<String> = parsed.imports.iter().map(|i| span(&i.loc)).collect();
+      for e in self.state.get_errors(&m).iter() {
+        if matches!(e.detail, samlang_errors::ErrorDetail::CannotResolveModule { .. }) {
+          items.push(format!("impdiag@{}={}", span(&e.location), if imps.is_empty() { "-".to_string() } else { imps.join(",") }));
+        }
+      }
+    }
     // rename at (a sample of) local identifiers: the rewritten module must still parse
     let mut renamed = 0;
     for (pos, _, local) in &idents {
